@@ -233,7 +233,7 @@ theorem run_F (n : Nat) : ∀ (fs : LFields) (after : Bytes) (fuel : Nat) (st : 
     rw [run_F n rest after _ _ hvr rfl hctx2]
     congr 1
     simp only [St.mk.injEq, true_and, hst]
-    simp only [tapeF, List.length_append, List.length_cons, List.length_nil, len_tapeV, List.append_assoc,
+    simp only [tapeF, List.length_append, List.length_cons, len_tapeV, List.append_assoc,
       List.cons_append, List.nil_append]
     simp only [Nat.add_assoc, Nat.add_comm, Nat.add_left_comm]
 end
